@@ -471,7 +471,7 @@ BOUNDS = ["engine level, scenario: DhtCoreEngine::add_node followed by evict_nod
           "engine level, one inductive step: add_node / evict_node / handle_node_failure of a peer that may already be listed and may already hold an ARBITRARY well-formed slot record "
           "(per-peer records as SMT arrays over 256-bit ids): every counter changes by exactly the change of the peer's record, holders are listed, other peers' records untouched; "
           "by induction every counter equals the number of listed peers holding that key, for histories of any length"]
-OUTSIDE = ["BootstrapManager::add_peer (bootstrap-cache admission: tokio fs + join limiter)", "DhtCoreEngine::join_network (bootstrap peers bypass the gates by design and hold no slots)",
+OUTSIDE = ["DhtCoreEngine::join_network (bootstrap peers bypass the gates by design and hold no slots)",
            "geo providers at engine level (ASN / country / hosting flags of freshly analysed addresses; arbitrary records do carry them)", "routing-table layouts other than [3,7] with <= 2 peers per bucket"]
 
 
